@@ -99,6 +99,10 @@ def probe_projects():
         add("field-name", "reserved-word", w, rg.struct_src("Item", [(w, "i32")]) + base_cmd())
         add("channel-name", "reserved-word", w, rg.struct_src("Item", [("a", "i32")]) +
             "use tauri::ipc::Channel;\n" + rg.command_src("get_item", [("id", "i32"), (w, "Channel<Item>")], "Item"))
+    # names that only BECOME a reserved word through the camelCase conversion (try_ -> try, _new -> new, in__ -> in)
+    for w in sorted(tsparse.RESERVED | tsparse.STRICT_BINDING_FORBIDDEN):
+        for nm in (w + "_", "_" + w, w + "__"):
+            add("command-name", "camelcases-to-reserved-word", nm, rg.struct_src("Item", [("a", "i32")]) + rg.command_src(nm, [("id", "i32")], "Item"))
     for w in ["r#type", "r#match", "r#fn"]:
         add("command-name", "raw-identifier", w, rg.struct_src("Item", [("a", "i32")]) + rg.command_src(w, [("id", "i32")], "Item"))
         add("param-name", "raw-identifier", w, rg.struct_src("Item", [("a", "i32")]) + rg.command_src("get_item", [(w, "i32")], "Item"))
